@@ -69,10 +69,16 @@ def renumber(routine_ops, start=0, gap=None):
     return ops, mapping
 
 
+SHUFFLE_COROUTINES = [None]  # a random.Random: the table of named coroutines is handed over in random order (it is keyed by id)
+
+
 def coroutines(named):
     from explorerscript.ssb_converting.ssb_data_types import SsbCoroutine
 
-    return [SsbCoroutine(i, n) for i, n in enumerate(named or []) if isinstance(n, str)]
+    out = [SsbCoroutine(i, n) for i, n in enumerate(named or []) if isinstance(n, str)]
+    if SHUFFLE_COROUTINES[0] is not None:
+        SHUFFLE_COROUTINES[0].shuffle(out)
+    return out
 
 
 def dm_constants():
